@@ -646,7 +646,7 @@ def fam_memo(tier, seed):
                 g.real_extra.append(list("a" * 26 + "b" * 25 + "c"))
                 # several hundred nested rule calls, then shallower ones again: nothing learnt from a deep
                 # parse (or from refusing one) may show in a later parse of the same thread
-                for dp in ((300, 280, 150) if tier == "quick" else (300, 700, 280, 1000, 150)):
+                for dp in ((300, 280, 150) if tier == "quick" else (300, 600, 280, 150)):
                     g.real_extra.append(list("a" * dp + "b" * dp))
                 g.real_extra.append(list("a" * 300 + "b" * 299))
             if name in ("memo_in_closure", "failing_prefix", "three_level"):
